@@ -29,26 +29,6 @@ def parsePStr (d : String) : Option PStrTy :=
     | _, _ => none
   | _ => none
 
-def parseMTy (d : String) : Option MTy :=
-  if d.startsWith "pstr:" then (parsePStr d).map .pstr else (parseTy d).map .base
-
-/-- split at the `|` of parenthesis depth 0 -/
-def splitTop : List Char → Nat → List Char → List (List Char)
-  | [], _, cur => [cur.reverse]
-  | c :: r, depth, cur =>
-    if c == '|' && depth == 0 then cur.reverse :: splitTop r 0 []
-    else if c == '(' then splitTop r (depth + 1) (c :: cur)
-    else if c == ')' then splitTop r (depth - 1) (c :: cur)
-    else splitTop r depth (c :: cur)
-
-def parseUTy : Nat → String → Option UTy
-  | 0, _ => none
-  | f + 1, d =>
-    if d.startsWith "U(" && d.endsWith ")" then
-      let inner := (d.toList.drop 2).dropLast
-      ((splitTop inner 0 []).mapM fun p => parseUTy f (String.ofList p)).map .union
-    else (parseMTy d).map .mem
-
 /-! ### identityref descriptors: `idref:<leafmod>:<base>+<base>@<ident>,<ident>…`, `<ident>` = `<mod>.<name>[<<base>+<base>]` -/
 
 def bytesOf (s : String) : Bytes := s.toUTF8.toList
@@ -99,13 +79,45 @@ def IdTy.pmXml (t : IdTy) : Ident.PrefixMap := { table := t.mods.map fun m => (1
 def IdTy.pmSchema (t : IdTy) : Ident.PrefixMap :=
   { table := ([118], [35]) :: t.mods.map fun m => (112 :: m, m), dflt := some [35] }
 
+def parseMTy (d : String) : Option MTy :=
+  if d.startsWith "pstr:" then (parsePStr d).map .pstr else (parseTy d).map .base
+
+/-- split at the `|` of parenthesis depth 0 -/
+def splitTop : List Char → Nat → List Char → List (List Char)
+  | [], _, cur => [cur.reverse]
+  | c :: r, depth, cur =>
+    if c == '|' && depth == 0 then cur.reverse :: splitTop r 0 []
+    else if c == '(' then splitTop r (depth + 1) (c :: cur)
+    else if c == ')' then splitTop r (depth - 1) (c :: cur)
+    else splitTop r depth (c :: cur)
+
+/-- prefix format of a request: the text formats of the value ops use module names -/
+inductive Fmt | json | xml | schema
+  deriving DecidableEq
+
+def IdTy.pm (t : IdTy) : Fmt → Ident.PrefixMap
+  | .json => t.pmJson
+  | .xml => t.pmXml
+  | .schema => t.pmSchema
+
+/-- a union descriptor; an identityref member resolves prefixes in the format of the request -/
+def parseUTy (fmt : Fmt) : Nat → String → Option UTy
+  | 0, _ => none
+  | f + 1, d =>
+    if d.startsWith "U(" && d.endsWith ")" then
+      let inner := (d.toList.drop 2).dropLast
+      ((splitTop inner 0 []).mapM fun p => parseUTy fmt f (String.ofList p)).map .union
+    else if d.startsWith "idref:" then
+      (parseIdTy d).map fun t => .ext (idrefPlug t.ctx t.bases (t.pm fmt) t.pmJson)
+    else (parseMTy d).map .mem
+
 /-! ### ops -/
 
 def cmpFields (eq : Bool) (so : Int) (ceq : Bool) : String :=
   "ok " ++ (if eq then "1" else "0") ++ " " ++ sgn so ++ " " ++ (if ceq then "1" else "0") ++ " " ++
     (if so ≤ 0 then "a" else "b") ++ " " ++ (if so < 0 then "a" else "b")
 
-def handleUnion (ms : List MTy) (op : String) (args : List String) : String :=
+def handleUnion (ms : List Plug) (op : String) (args : List String) : String :=
   match op, args with
   | "store", [_, h, x] =>
     match h.toNat?, Hex.dec x with
@@ -145,6 +157,19 @@ def handleUnion (ms : List MTy) (op : String) (args : List String) : String :=
       match unlybU ms b with
       | .ok v => "ok " ++ Hex.enc (canonU ms v)
       | .error e => "err " ++ e.name
+    | none => "err BadArg"
+  | "idfmt", [_, fmt, x] =>
+    -- `ms` was built for the prefix format `fmt`; `lyb`: a union value in LYB form (member index + member value)
+    match Hex.dec x with
+    | some s =>
+      if fmt == "lyb" then
+        match unlybU ms s with
+        | .ok v => "ok " ++ Hex.enc (canonU ms v)
+        | .error e => "err " ++ e.name
+      else
+        match storeU ms Generated.LYD_HINT_DATA s with
+        | .ok u => "ok " ++ Hex.enc (canonU ms u)
+        | .error e => "err " ++ e.name
     | none => "err BadArg"
   | _, _ => "err BadOp"
 
@@ -252,7 +277,10 @@ def handle (op : String) (args : List String) : String :=
   match args with
   | d :: _ =>
     if d.startsWith "U(" then
-      match parseUTy (d.length + 1) d with
+      let fmt : Fmt := match op, args with
+        | "idfmt", [_, f, _] => if f == "xml" then .xml else if f == "schema" then .schema else .json
+        | _, _ => .json
+      match parseUTy fmt (d.length + 1) d with
       | some u => handleUnion u.flatten op args
       | none => "err BadArg"
     else if d.startsWith "pstr:" then
